@@ -12,7 +12,8 @@ from harness.probes import pm
 def record_exposure(cfg: dict, construction: str = "python", debug: bool = False,
                     hier: bool = False, readout_how: str = "list", yaml_order: str = "canonical",
                     seed: int = 0, kind: str = "ccd", extra: dict | None = None,
-                    rows: int = 2, cols: int = 3, keep: dict | None = None) -> dict:
+                    rows: int = 2, cols: int = 3, keep: dict | None = None,
+                    real: int | None = None) -> dict:
     """Run one exposure of `cfg`; return {cfg, events, meta}.  Never raises for
     errors of the code under test - those become `failed` / `rejected` events."""
     import pyxel
@@ -21,7 +22,12 @@ def record_exposure(cfg: dict, construction: str = "python", debug: bool = False
     pm.SINK.reset()
     events = pm.SINK.events
     meta = {"construction": construction, "debug": debug, "hier": hier, "readout": readout_how,
-            "yaml_order": yaml_order, "detector": kind}
+            "yaml_order": yaml_order, "detector": kind, "real": real}
+    try:
+        det0 = px.make_detector(kind, rows, cols)
+    except Exception:
+        return {"cfg": cfg, "events": [{"e": "harness-error", "why": traceback.format_exc()[-400:]}],
+                "meta": meta}
     try:
         if construction == "yaml":
             text = px.yaml_document(cfg, order=yaml_order, seed=seed, extra=extra, rows=rows,
@@ -29,8 +35,8 @@ def record_exposure(cfg: dict, construction: str = "python", debug: bool = False
             conf = pyxel.loads(text)
             mode, det, pipe = conf.running_mode, conf.detector, conf.pipeline
         else:
-            pipe = px.build_pipeline(cfg, extra)
-            det = px.make_detector(kind, rows, cols)
+            pipe = px.build_pipeline(cfg, extra, real=real, shape=(rows, cols))
+            det = det0
             mode = Exposure(readout=px.build_readout(cfg, readout_how))
     except Exception as exc:          # refused at construction: before any model executes
         ev = {"e": "rejected"}
@@ -45,14 +51,9 @@ def record_exposure(cfg: dict, construction: str = "python", debug: bool = False
         dt = pyxel.run_mode(mode, det, pipe, debug=debug, with_inherited_coords=hier)
     except Exception as exc:
         evs = list(events)
-        if not evs:
-            pe = px.project_exception(exc)
-            # an error before any model executed: refusal of the schedule or of the run
-            evs.append({"e": "rejected", "why": pe["exc"] + ": " + pe["msg"][:120]})
-        else:
-            pe = px.project_exception(exc)
-            evs.append({"e": "failed", "exc": pe["exc"], "msg": pe["msg"], "g": pe["g"],
-                        "name": pe["name"], "noresult": True})
+        pe = px.project_exception(exc)
+        evs.append({"e": "failed", "exc": pe["exc"], "msg": pe["msg"], "g": pe["g"],
+                    "name": pe["name"], "noresult": True})
         out = {"cfg": cfg, "events": evs, "meta": meta}
         if keep is not None:
             keep["exc"] = exc
